@@ -32,7 +32,7 @@ func isLevelB(seed uint64) bool {
 func configure(seed uint64, tier string) sim.RunConfig {
 	if isLevelB(seed) {
 		x := sim.SplitMix64(seed ^ 0xc09)
-		maxSteps := 4_000_000
+		maxSteps := 2_000_000
 		if tier != "thorough" {
 			maxSteps = 800_000 // about a minute of wall time at worst: the quick tier must stay quick
 		}
